@@ -17,6 +17,7 @@ import (
 	"go/parser"
 	"go/token"
 	"os"
+	"os/exec"
 	"path/filepath"
 	"regexp/syntax"
 	"sort"
@@ -60,6 +61,41 @@ func evalString(p *pkgInfo, e ast.Expr, depth int) (string, bool) {
 		}
 	}
 	return "", false
+}
+
+// listSources asks the go tool for the non-test Go files of every package of this module that the
+// main package (the module root) depends on.
+func listSources(repo string) ([]string, error) {
+	cmd := exec.Command("go", "list", "-deps", "-f", "{{if not .Standard}}{{.Dir}}|{{range .GoFiles}}{{.}},{{end}}{{end}}", ".")
+	cmd.Dir = repo
+	cmd.Env = append(os.Environ(), "GOFLAGS=-mod=mod", "GOPROXY=off", "GOSUMDB=off", "GOTOOLCHAIN=local")
+	out, err := cmd.Output()
+	if err != nil {
+		return nil, fmt.Errorf("go list: %v", err)
+	}
+	root, _ := filepath.Abs(repo)
+	root, _ = filepath.EvalSymlinks(root)
+	var files []string
+	for _, line := range strings.Split(string(out), "\n") {
+		parts := strings.SplitN(line, "|", 2)
+		if len(parts) != 2 {
+			continue
+		}
+		dir, _ := filepath.EvalSymlinks(parts[0])
+		if dir != root && !strings.HasPrefix(dir, root+string(filepath.Separator)) {
+			continue // a dependency outside this module
+		}
+		for _, f := range strings.Split(parts[1], ",") {
+			if f != "" {
+				files = append(files, filepath.Join(parts[0], f))
+			}
+		}
+	}
+	sort.Strings(files)
+	if len(files) == 0 {
+		return nil, fmt.Errorf("no source files found")
+	}
+	return files, nil
 }
 
 func byteName(b int) string { return fmt.Sprintf("x%02x", b) }
@@ -238,28 +274,18 @@ func main() {
 	wantStr := map[string]bool{}
 	fset := token.NewFileSet()
 	dirs := map[string][]*ast.File{}
-	err := filepath.Walk(repo, func(p string, info os.FileInfo, err error) error {
-		if err != nil {
-			return err
-		}
-		if info.IsDir() {
-			if info.Name() == ".git" || info.Name() == "vendor" {
-				return filepath.SkipDir
-			}
-			return nil
-		}
-		if !strings.HasSuffix(p, ".go") || strings.HasSuffix(p, "_test.go") {
-			return nil
-		}
+	// the source files of the program: the packages the main package depends on (as the go tool sees
+	// them, build constraints included); stray *.go files elsewhere in the tree are not part of it
+	files, lerr := listSources(repo)
+	if lerr != nil {
+		fail("cannot list the program's source files: %v", lerr)
+	}
+	for _, p := range files {
 		f, err := parser.ParseFile(fset, p, nil, 0)
 		if err != nil {
-			return err
+			fail("%v", err)
 		}
 		dirs[filepath.Dir(p)] = append(dirs[filepath.Dir(p)], f)
-		return nil
-	})
-	if err != nil {
-		fail("%v", err)
 	}
 	var dirNames []string
 	for d := range dirs {
